@@ -31,7 +31,7 @@ enum { BLK_NONE = 0, BLK_MUTEX, BLK_WAIT, BLK_JOIN };
 #define MAXKEY 32
 
 struct mt_thread {
-	int		used, finished, started;
+	int		used, finished, started, joined;
 	int		blocked;
 	void		*blocked_on;
 	int		join_target;
@@ -322,8 +322,9 @@ static int idx_of(pthread_t t)
 {
 	int i;
 
-	for (i = 0; i < nthr; i++)
-		if (th[i].used && pthread_equal(th[i].real, t))
+	/* pthread_t values are reused by libc once a thread has really been joined: skip joined entries */
+	for (i = nthr - 1; i >= 0; i--)
+		if (th[i].used && !th[i].joined && pthread_equal(th[i].real, t))
 			return i;
 	return -1;
 }
@@ -349,6 +350,7 @@ int __wrap_pthread_join(pthread_t thread, void **ret)
 	__real_pthread_mutex_unlock(&B);
 	__real_pthread_join(thread, ret);
 	__real_pthread_mutex_lock(&B);
+	th[t].joined = 1;
 	return 0;
 }
 
@@ -729,12 +731,19 @@ void mt_child_status(int pid, int status)
 /* run fn in the context of a forked child of this process (pid differs, atfork child handlers ran) */
 void mt_as_child(void (*fn)(void *), void *arg)
 {
+	struct mt_thread *x = &th[mt_self()];
 	int saved = vpid;
+	uint64_t saved_pending, saved_mask;
 	int i;
 
 	for (i = n_atfork - 1; i >= 0; i--)
 		if (af_prepare[i] != NULL)
 			af_prepare[i]();
+	/* the child starts with the parent's mask and no pending signals; what is pending for the parent stays
+	   pending for the parent */
+	saved_pending = x->sigpending;
+	saved_mask = x->sigmask;
+	x->sigpending = 0;
 	vpid = next_pid++;
 	for (i = 0; i < n_atfork; i++)
 		if (af_child[i] != NULL)
@@ -743,6 +752,8 @@ void mt_as_child(void (*fn)(void *), void *arg)
 	fn(arg);
 	vk_trace("Fx %d", vpid);
 	vpid = saved;
+	x->sigmask = saved_mask;
+	x->sigpending = saved_pending;
 	for (i = 0; i < n_atfork; i++)
 		if (af_parent[i] != NULL)
 			af_parent[i]();
